@@ -215,6 +215,21 @@ def detect_encoding_func(ctx):
     return hits[0]
 
 
+def _with_flags(source, flags):
+    """The pattern text with its compile flags spelled as a scoped inline group, so that it can be embedded in a larger
+    pattern: re.VERBOSE changes what the blanks and `#` of the source mean, re.DOTALL what `.` means."""
+    import re as _re
+    letters = ''
+    for fl, ch in ((_re.VERBOSE, 'x'), (_re.DOTALL, 's'), (_re.MULTILINE, 'm'), (_re.IGNORECASE, 'i')):
+        if flags & fl:
+            letters += ch
+    if not letters:
+        return source
+    if isinstance(source, bytes):
+        return b'(?' + letters.encode() + b':' + source + b'\n)'
+    return '(?' + letters + ':' + source + '\n)'
+
+
 def _detect_encoding_patterns(ctx):
     """-> (func, window, decl, loop).  decl / window are (method, pattern, call node); ``loop`` is None or
     (n_lines, advance_pattern) when the declaration pattern is applied at a moving offset inside
@@ -252,7 +267,7 @@ def _detect_encoding_patterns(ctx):
             except AnalysisError:
                 continue
             if isinstance(v, Rx):
-                order.append((n.func.attr, v.source, n, True))
+                order.append((n.func.attr, _with_flags(v.source, v.flags), n, True))
     for attr, pat, n, compiled in order:
         text = pat if isinstance(pat, bytes) else pat.encode('latin-1')
         if b'coding' in text:
@@ -350,6 +365,37 @@ def rx_5_6(ctx, rep):
     rep.ob('RX-5', UTILS, 'python_bytes_to_unicode.detect_encoding', 'declaration pattern %r' % (pat,), w is None,
            'text in which parso finds an encoding declaration and CPython does not' if w is not None else '',
            witness=w)
+    if loop is None and attr == 'match':
+        # which declaration is taken when both lines carry one: CPython reads line by line, the first one wins.  A single
+        # pattern `(?:<blank-or-comment line>)? <declaration line>` has two readings of such a text; the backtracking
+        # matcher takes the reading without the optional line first only when the option is lazy (`??`).
+        import re._parser as _sp
+        import re._constants as _sc
+        try:
+            tree = _sp.parse(psrc)
+        except Exception as e:
+            raise AnalysisError('cannot parse the declaration pattern: %s' % e)
+        items = list(tree)
+        # a scoped-flag group around the whole pattern
+        while len(items) == 1 and items[0][0] is _sc.SUBPATTERN and items[0][1][0] is None:
+            tree = items[0][1][3]
+            items = list(tree)
+        if items and items[0][0] in (_sc.MAX_REPEAT, _sc.MIN_REPEAT) and items[0][1][0] == 0 and items[0][1][1] == 1:
+            lazy = items[0][0] is _sc.MIN_REPEAT
+            fl = tree.state.flags
+            def _build(sub):
+                nfa = rx.NFA(255)
+                nfa.start, nfa.final = rx._Builder(nfa, fl).build(sub)
+                return nfa
+            with_opt = rx.concat(_build(items[0][1][2]), _build(tree[1:]), rx.compile_nfa(anyb))
+            without = rx.concat(_build(tree[1:]), rx.compile_nfa(anyb))
+            w5 = rx.intersect_witness(with_opt, without)
+            rep.ob('RX-5', UTILS, 'python_bytes_to_unicode.detect_encoding',
+                   'the first of two declarations wins (optional first line is %s)' % ('lazy' if lazy else 'greedy'),
+                   w5 is None or lazy,
+                   'a text with a declaration on line one and on line two matches with and without the optional first '
+                   'line; the greedy option makes the matcher take the declaration of line two, CPython takes line one',
+                   witness=w5)
     if window is None and attr == 'match':
         # anchored pattern(s): it must also find every declaration CPython honours
         w2 = rx.included(nB, nA)
